@@ -311,6 +311,103 @@ func init() {
 	}})
 }
 
+// ---------------------------------------------------------------- C13/C08: two constructs given overlapping slices of one backing array
+
+// The caller builds items in ONE slice with spare capacity (`make([]Code, 0, 8)` + append), passes a
+// PREFIX of it to one list construct and the whole (or a longer prefix, extended without
+// reallocation) to another — the ordinary way of "these statements, and the same plus two more".
+// Every construct keeps the slice it was given as its item list, so construct 1's list has spare
+// capacity whose cells belong to construct 2.  Both are rendered, in either order, as fragments
+// and/or inside one File, twice: each must render like the construct built from its own copy of
+// its items every time, and the backing array must still hold what the caller put there.
+func init() {
+	for _, prop := range []string{"C13", "C08"} {
+		prop := prop
+		directExps = append(directExps, directExp{name: "overlapping-slices-with-spare-capacity", prop: prop, run: func(r *Rng) *Finding {
+			var apis []string
+			for name, kind := range genConstructs {
+				if kind == "variadic" {
+					if _, ok := pkgFuncs[name]; ok {
+						apis = append(apis, name)
+					}
+				}
+			}
+			sort.Strings(apis)
+			n := 2 + r.Intn(6)
+			k := 1 + r.Intn(n-1) // 1 <= k < n
+			spare := r.Intn(4)
+			itemSeed := r.Next()
+			mk := func(capacity int) []jen.Code {
+				rr := NewRng(itemSeed)
+				xs := make([]jen.Code, 0, capacity)
+				for i := 0; i < n; i++ {
+					switch rr.Intn(6) {
+					case 0:
+						xs = append(xs, nil)
+					case 1:
+						xs = append(xs, jen.Null())
+					default:
+						xs = append(xs, jen.Id(fmt.Sprintf("a%d", i)))
+					}
+				}
+				return xs
+			}
+			a1, a2 := pick(r, apis), pick(r, apis)
+			if r.Chance(60) {
+				a1 = pick(r, []string{"Block", "Defs", "Struct", "Interface", "Values", "Call", "Params", "List", "Index", "Case"})
+			}
+			callSlice := func(api string, recv *jen.Statement, xs []jen.Code) *jen.Statement {
+				m := reflect.ValueOf(recv).MethodByName(api)
+				return m.CallSlice([]reflect.Value{reflect.ValueOf(xs)})[0].Interface().(*jen.Statement)
+			}
+			raw := func(ss ...*jen.Statement) string {
+				f := jen.NewFile("p")
+				f.NoFormat = true
+				for _, s := range ss {
+					f.Add(s)
+				}
+				var b bytes.Buffer
+				if err := f.Render(&b); err != nil {
+					return "error: " + err.Error()
+				}
+				return b.String()
+			}
+			own := func(xs []jen.Code) []jen.Code { return append(make([]jen.Code, 0, len(xs)), xs...) }
+			want1 := raw(callSlice(a1, jen.Id("f"), own(mk(n)[:k])))
+			want2 := raw(callSlice(a2, jen.Id("g"), own(mk(n))))
+			wantBoth := raw(callSlice(a1, jen.Id("f"), own(mk(n)[:k])), callSlice(a2, jen.Id("g"), own(mk(n))))
+			xs := mk(n + spare)
+			before := append([]jen.Code{}, xs...)
+			s1 := callSlice(a1, jen.Id("f"), xs[:k])
+			s2 := callSlice(a2, jen.Id("g"), xs)
+			desc := []string{fmt.Sprintf("xs := make([]Code, 0, %d) + %d items (seed %d); s1 := Id(\"f\").%s(xs[:%d]...); s2 := Id(\"g\").%s(xs...)", n+spare, n, itemSeed, a1, k, a2)}
+			orders := [][]int{{1, 2, 1, 2}, {2, 1, 2, 1}, {3, 3}, {2, 1, 3}, {1, 3, 2}}
+			for _, o := range orders[r.Intn(len(orders))] {
+				var got, want, what string
+				switch o {
+				case 1:
+					got, want, what = raw(s1), want1, "s1"
+				case 2:
+					got, want, what = raw(s2), want2, "s2"
+				default:
+					got, want, what = raw(s1, s2), wantBoth, "File{s1, s2}"
+				}
+				desc = append(desc, "render "+what)
+				if got != want {
+					return &Finding{Property: prop, Shape: "overlapping-slices-change-output", What: fmt.Sprintf("%s renders differently from the same construct(s) built from their own copies of the items (the constructs were given overlapping slices of one backing array)", what),
+						Case: strings.Join(desc, "\n"), Expected: trunc(want), Observed: trunc(got)}
+				}
+			}
+			for i := range before {
+				if (xs[i] == nil) != (before[i] == nil) || (xs[i] != nil && fmt.Sprintf("%p", xs[i]) != fmt.Sprintf("%p", before[i])) {
+					return &Finding{Property: prop, Shape: "caller-slice-modified", What: fmt.Sprintf("rendering changed element %d of the caller's backing array", i), Case: strings.Join(desc, "\n")}
+				}
+			}
+			return nil
+		}})
+	}
+}
+
 // ---------------------------------------------------------------- C09: one hint map handed to several Files
 
 // The caller passes ONE map[string]string to ImportNames of two Files (the usual way to use a
